@@ -412,6 +412,23 @@ def answer (line : String) : String :=
         | (.panic, _) => "panic"
       | none => "bad-op"
     | _ => "bad-op"
+  | "dvl" :: kind :: len :: rest =>
+    -- the public `decode_vec_with_len::<T, _>(input, len)` called directly, with any `len`
+    -- (the type argument is given as `Vec<T>`, for the element size); over a slice / a reader
+    match len.toNat?, parseTy rest with
+    | some len, some (.seq .vec sz t, [h]) =>
+      match parseHex h with
+      | some bs =>
+        let p := (Impl.decodeVecWithLen sz t (Impl.decodeP t) len).bind fun vs => Prog.pure (Val.seq vs)
+        let r := if kind = "slice" then run (traceRec sliceInput) p (bs, []) else run (traceRec ioInput) p (bs, [])
+        let hooks := r.2.2.foldl (fun acc e => match e with
+          | .alloc n => (acc.1 + 1, satAdd acc.2 n) | _ => acc) (0, 0)
+        match r.1 with
+        | .ok v => "ok " ++ showVal v ++ " " ++ toString r.2.1.length ++ " hooks=" ++ toString hooks.1 ++ "/" ++ toString hooks.2
+        | .err => "err"
+        | .panic => "panic"
+      | none => "bad-op"
+    | _, _ => "bad-op"
   | "decio" :: rest =>
     match parseTy rest with
     | some (ty, [h]) =>
